@@ -523,6 +523,7 @@ int main(int argc, char** argv)
     for (int64_t c = from; c < to; ++c)
     {
         emit(J().kv("t", "case_begin").kv("case", c).str());
+        arm_case_watchdog(40);
         e.run_case(seed, c, max_n, max_steps);
         steps += static_cast<uint64_t>(e.step);
         registry().reset();
